@@ -325,11 +325,16 @@ where
             (self.h.t.values.table.as_ref() as &K::Type<K::I>).bincount(node_count.clone());
         let out_degrees =
             (self.h.s.values.table.as_ref() as &K::Type<K::I>).bincount(node_count.clone());
-        let ones = K::Index::fill(K::I::one(), node_count);
 
         // Monogamy condition: for each node, degree is 0 iff on the interface, else 1.
-        // Equivalent to elementwise: degree + interface_count == 1.
-        (in_degrees + in_counts - ones.clone()).zero().len() == ones.len()
-            && (out_degrees + out_counts - ones).zero().len() == self.h.w.len()
+        // Equivalent to elementwise: degree + interface_count == 1,
+        // i.e. no entry is zero and no entry exceeds one (no subtraction: a node with degree 0
+        // which is not on the interface must give `false`, not an arithmetic underflow).
+        let in_total = in_degrees + in_counts;
+        let out_total = out_degrees + out_counts;
+        let all_ones = |x: &K::Index| {
+            x.zero().is_empty() && x.max().map(|m| m <= K::I::one()).unwrap_or(true)
+        };
+        all_ones(&in_total) && all_ones(&out_total)
     }
 }
